@@ -8,7 +8,7 @@ import numpy as np
 from harness.common import q2s, s2q, run_driver, lean_obligations
 
 MODULE = 'Ndt.Props.C04Multi'
-THEOREMS = ['Ndt.hessian_fdel_symmetric', 'Ndt.hessFlat_symmetric', 'Ndt.hessForward_quadratic', 'Ndt.hessForward_quadratic_diag',
+THEOREMS = ['Ndt.hessian_cells_generated', 'Ndt.hessian_complex_cell_generated', 'Ndt.hessian_fdel_symmetric', 'Ndt.hessFlat_symmetric', 'Ndt.hessForward_quadratic', 'Ndt.hessForward_quadratic_diag',
             'Ndt.hessCentral_quadratic', 'Ndt.hessCentral_quadratic_diag', 'Ndt.hessCentral2_quadratic', 'Ndt.quadratic_form_along',
             'Ndt.bestEstimate_equal_columns', 'Ndt.hessian_constant_table', 'Ndt.hessdiag_exact',
             'Ndt.hessComplex_quadratic', 'Ndt.phi_bcMPoly', 'Ndt.hessMulticomplex_quadratic', 'Ndt.hessian_complex_not_high_order', 'Ndt.hessdiag_exact_complex']
@@ -35,7 +35,7 @@ def run(ctx):
     import numdifftools as nd
     from numdifftools.finite_difference import HessianDifferenceFunctions as HDF
     from harness.translate import translator_obligations
-    translator_obligations(ctx, ['LogHessianRule'])
+    translator_obligations(ctx, ['LogHessianRule', 'HessCells.'])
     lean_obligations(ctx, MODULE, THEOREMS)
     rng = ctx.rng
 
